@@ -17,6 +17,7 @@ import (
 
 	"verif/internal/hx"
 	"verif/internal/rulegen"
+	"verif/internal/uapi"
 )
 
 // C13 — rule.Build, rule.ToCommandLine and flags.Parse never panic, hang or
@@ -542,6 +543,50 @@ func TestC13ValueSweep(t *testing.T) {
 		}
 	}
 	hC13.Class("value-sweep")
+}
+
+// TestC13FieldValueGrid: the first field of a valid one-field rule replaced by every field code 0..255 with every
+// small value (0..130; thorough: 0..300 and both equality operators): the values that index a table of names
+// (comparison codes, record types, file types, permission bits, architectures) lie here, one past the end of
+// each table included.
+func TestC13FieldValueGrid(t *testing.T) {
+	base := []byte(mustBuildLine(t, "-a always,exit -F pid=1"))
+	maxV, ops := uint32(130), []uint32{uapi.A("AUDIT_EQUAL")}
+	if hx.Thorough() {
+		maxV, ops = 300, []uint32{uapi.A("AUDIT_EQUAL"), uapi.A("AUDIT_NOT_EQUAL")}
+	}
+	for field := uint32(0); field < 256; field++ {
+		for v := uint32(0); v <= maxV; v++ {
+			for _, op := range ops {
+				b := append([]byte(nil), base...)
+				binary.NativeEndian.PutUint32(b[rulegen.OffFields:], field)
+				binary.NativeEndian.PutUint32(b[rulegen.OffValues:], v)
+				binary.NativeEndian.PutUint32(b[rulegen.OffFieldFlags:], op)
+				if rulegen.IsStringField(field) {
+					b = append(b, bytes.Repeat([]byte{'s'}, int(v))...)
+					binary.NativeEndian.PutUint32(b[rulegen.OffBufLen:], v)
+				}
+				c := C13Case{Kind: "decode", Bytes: b}
+				hC13.Eval()
+				if err := hx.Guard(propC13, c); err != nil {
+					hC13.Fail(t, "TestC13", c, "%v", err)
+				}
+			}
+		}
+	}
+	hC13.Class("field-value-grid")
+}
+
+func mustBuildLine(t *testing.T, line string) rule.WireFormat {
+	r, err := flags.Parse(line)
+	if err != nil {
+		t.Fatalf("%s: %v", line, err)
+	}
+	wf, err := rule.Build(r)
+	if err != nil {
+		t.Fatalf("%s: %v", line, err)
+	}
+	return wf
 }
 
 // TestC13FieldCount: rules around the 64-field limit built from valid filters only, in every mix of value
